@@ -50,19 +50,27 @@ Proof.
   apply andb_true_iff. split; apply Z.leb_le; assumption.
 Qed.
 
+Lemma amount_bools held a0 a : amount_rel held a0 a -> 0 <= held ->
+  acct_amount held a0 a = true /\ within_amount a0 a = true /\ fits_amount held a0 = true.
+Proof.
+  unfold amount_rel, acct_amount, within_amount, fits_amount. destruct a0 as [x|].
+  - intros [-> Hge] Hh. rewrite Z.eqb_refl. split; [reflexivity|].
+    split; apply andb_true_iff; split; apply Z.leb_le; lia.
+  - intros -> _. auto.
+Qed.
+
 Lemma NodeInv_bools h n0 n : NodeInv h n0 n ->
   acct_node h n0 n = true /\ within_node n0 n = true /\ fits_node h n0 = true.
 Proof.
-  intros [Hidx Hname Hsc Hsg [l0 [Hl0 [Hl Hlge]]] [m0 [Hm0 [Hm Hmge]]] Hbc Hbg Hb0c Hb0g Hfc Hfg Hfl Hfm Hdc Hdg].
+  intros [Hidx Hname Hsc Hsg Hl Hm Hbc Hbg Hb0c Hb0g Hfc Hfg Hfl Hfm Hdc Hdg].
+  destruct (amount_bools _ _ _ Hl Hfl) as [L1 [L2 L3]]. destruct (amount_bools _ _ _ Hm Hfm) as [M1 [M2 M3]].
   split; [|split].
-  - unfold acct_node. rewrite Hidx, Z.eqb_refl, Hname, String.eqb_refl, Hl0, Hl, Hm0, Hm. cbn [andb acct_amount].
-    rewrite !Z.eqb_refl, !andb_true_r. apply andb_true_iff. split; apply acct_list_of; intro p.
+  - unfold acct_node. rewrite Hidx, Z.eqb_refl, Hname, String.eqb_refl, L1, M1. cbn [andb].
+    rewrite !andb_true_r. apply andb_true_iff. split; apply acct_list_of; intro p.
     + rewrite (Hsc p). reflexivity.
     + rewrite (Hsg p). reflexivity.
-  - unfold within_node. rewrite (within_list_of _ Hbc), (within_list_of _ Hbg), Hl0, Hl, Hm0, Hm. cbn [andb within_amount].
-    apply andb_true_iff. split; apply andb_true_iff; split; apply Z.leb_le; lia.
-  - unfold fits_node. rewrite Hl0, Hm0. cbn [fits_amount].
-    rewrite !andb_true_iff. repeat split; try (apply Z.leb_le; lia).
+  - unfold within_node. rewrite (within_list_of _ Hbc), (within_list_of _ Hbg), L2, M2. reflexivity.
+  - unfold fits_node. rewrite L3, M3, !andb_true_r. apply andb_true_iff. split.
     + apply fits_list_of; [intros p Hp; exact (Hdc p Hp)|].
       intros p a Hp. cbn [Z.add]. split; [apply Hfc|].
       pose proof (Hbc _ _ (shifted_some_l _ _ _ _ _ Hsc Hp)). lia.
@@ -185,28 +193,34 @@ Qed.
 
 (* ------------------------------------------------------------ the beginning *)
 
-(* node lists as Pilot.nodelist builds them from the agent's resource details: ids are
-   list positions, lfs / mem are numbers, occupations are FREE .. BUSY or DOWN *)
+(* node lists: node ids pairwise distinct (they need not be the list positions: the agent keeps the
+   ids when it drops inaccessible nodes), lfs / mem a number >= 0 or not reported (None), occupations
+   FREE .. BUSY or DOWN; node names are arbitrary (they may all be equal) *)
+Definition amount_ok (a : option Z) : Prop := match a with Some x => 0 <= x | None => True end.
+
 Record wf_node (n0 : node) : Prop := mkWF {
   wf_c : bounded (nd_cores n0);
   wf_g : bounded (nd_gpus n0);
-  wf_l : exists l0, nd_lfs n0 = Some l0 /\ 0 <= l0;
-  wf_m : exists m0, nd_mem n0 = Some m0 /\ 0 <= m0 }.
+  wf_l : amount_ok (nd_lfs n0);
+  wf_m : amount_ok (nd_mem n0) }.
 
-Definition wf_nodes (ns0 : list node) : Prop := positional ns0 /\ Forall wf_node ns0.
+Definition wf_nodes (ns0 : list node) : Prop := distinct_ids ns0 /\ Forall wf_node ns0.
+
+Lemma amount_rel_init a : amount_ok a -> amount_rel 0 a a.
+Proof. unfold amount_ok, amount_rel. destruct a; [intro H; rewrite Z.sub_0_r; auto | auto]. Qed.
 
 Lemma Inv_init ns0 : wf_nodes ns0 -> Inv ns0 ns0 [].
 Proof.
   intros [Hp Hw]. constructor; [exact Hp | | constructor].
   clear Hp. induction Hw as [|n0 ns0 H Hw IH]; constructor; [|exact IH].
-  destruct H as [Bc Bg [l0 [El El0]] [m0 [Em Em0]]].
+  destruct H as [Bc Bg El Em].
   unfold NodeInv. cbn [Hc Hg Hl Hm]. constructor.
   - reflexivity.
   - reflexivity.
   - apply shifted_zero.
   - apply shifted_zero.
-  - exists l0. rewrite Z.sub_0_r. auto.
-  - exists m0. rewrite Z.sub_0_r. auto.
+  - exact (amount_rel_init _ El).
+  - exact (amount_rel_init _ Em).
   - exact Bc.
   - exact Bg.
   - exact Bc.
@@ -308,62 +322,18 @@ Qed.
 Lemma released_all_is_initial ns0 nl : Reached ns0 nl [] -> wf_nodes ns0 -> nl_nodes nl = ns0.
 Proof. intros HI Hw. eapply Inv_functional; [exact HI | apply Inv_init; exact Hw]. Qed.
 
-(* ------------------------------------------------------------ what does NOT hold *)
+(* ------------------------------------------------------------ beyond list positions *)
 
 Definition rr1 (nc : Z) : rreq := mkRR nc 64 0 64 0 0 false.
 
-(* node ids that are not the list positions (resource_manager/base.py _filter_nodes drops
-   inaccessible nodes and keeps the ids of the others): NodeList looks a slot's node up
-   with self.nodes[slot.node_index] *)
-Lemma wf_two_core_node i : wf_node (mkNode i "n" [Some 0; Some 0] [] (Some 0) (Some 0)).
-Proof.
-  constructor; cbn.
-  - intros [|[|[|p]]] o H; cbn in H; try discriminate; injection H as <-; unfold BUSY; lia.
-  - intros [|p] o H; discriminate.
-  - exists 0. split; [reflexivity | lia].
-  - exists 0. split; [reflexivity | lia].
-Qed.
-
-Lemma release_with_gapped_ids_refuted :
-  exists ns0 ops, NoDup (map nd_index ns0) /\ Forall wf_node ns0 /\ Forall op_ok ops /\
-    let tr := run (start_nl ns0 true) ops in
-    all_disciplined [] ops tr = true /\ v_restores (judge ns0 ns0 [] ops tr) = false.
-Proof.
-  pose (nd := fun i => mkNode i "n" [Some 0; Some 0] [] (Some 0) (Some 0)).
-  pose (s := fun i => mkSlot [(0, 64); (1, 64)] [] 0 0 i "n").
-  exists [nd 0; nd 2], [OFind (rr1 2) 2; ORelease [s 0; s 2]].
-  split; [constructor; [cbn; intuition discriminate | constructor; [cbn; intuition | constructor]]|].
-  split; [constructor; [apply wf_two_core_node | constructor; [apply wf_two_core_node | constructor]]|].
-  split; [repeat constructor; unfold rr1; cbn; lia|].
-  vm_compute. split; reflexivity.
-Qed.
-
-(* the same with the ids of two nodes swapped: the release is credited to the other node *)
-Lemma release_with_permuted_ids_refuted :
-  exists ns0 ops, NoDup (map nd_index ns0) /\ Forall wf_node ns0 /\ Forall op_ok ops /\
-    let tr := run (start_nl ns0 true) ops in
-    all_disciplined [] ops tr = true /\ v_restores (judge ns0 ns0 [] ops tr) = false /\
-    v_nover (judge ns0 ns0 [] ops tr) = false.
-Proof.
-  pose (nd := fun i => mkNode i "n" [Some 0; Some 0] [] (Some 0) (Some 0)).
-  pose (s := fun i => mkSlot [(0, 64); (1, 64)] [] 0 0 i "n").
-  exists [nd 1; nd 0], [OFind (rr1 2) 1; ORelease [s 1]].
-  split; [constructor; [cbn; intuition discriminate | constructor; [cbn; intuition | constructor]]|].
-  split; [constructor; [apply wf_two_core_node | constructor; [apply wf_two_core_node | constructor]]|].
-  split; [repeat constructor; unfold rr1; cbn; lia|].
-  vm_compute. repeat split; reflexivity.
-Qed.
-
-(* a Node built without lfs / mem (the class default None): allocate_slot skips them,
-   deallocate_slot raises TypeError after the cores were given back *)
-Lemma release_without_lfs_refuted :
-  exists ns0 ops, positional ns0 /\ Forall op_ok ops /\
-    let tr := run (start_nl ns0 true) ops in
-    all_disciplined [] ops tr = true /\ v_restores (judge ns0 ns0 [] ops tr) = false.
-Proof.
-  exists [mkNode 0 "n" [Some 0; Some 0] [] None (Some 0)],
-         [OFind (rr1 1) 2; ORelease [mkSlot [(0, 64)] [] 0 0 0 "n"; mkSlot [(1, 64)] [] 0 0 0 "n"]].
-  split; [intros [|[|p]] n0 H; cbn in H; try discriminate; injection H as <-; reflexivity|].
-  split; [repeat constructor; unfold rr1; cbn; lia|].
-  vm_compute. split; reflexivity.
-Qed.
+(* node ids 0 and 2 (node 1 was dropped), then ids 1 and 0; nodes that report neither lfs nor mem *)
+Example gapped_and_permuted_ids_and_no_lfs :
+  let nd i := mkNode i "n" [Some 0; Some 0] [] None None in
+  let s i := mkSlot [(0, 64); (1, 64)] [] 0 0 i "n" in
+  (let ns0 := [nd 0; nd 2] in
+   let tr := run (start_nl ns0 true) [OFind (rr1 2) 2; ORelease [s 0; s 2]] in
+   map fst tr = [RSlots [s 0; s 2]; ROk] /\ nl_nodes (last_nl (start_nl ns0 true) tr) = ns0) /\
+  (let ns0 := [nd 1; nd 0] in
+   let tr := run (start_nl ns0 true) [OFind (rr1 2) 1; OFind (rr1 2) 2; ORelease [s 1]] in
+   map fst tr = [RSlots [s 1]; RNone; ROk] /\ nl_nodes (last_nl (start_nl ns0 true) tr) = ns0).
+Proof. vm_compute. auto. Qed.
